@@ -1,6 +1,7 @@
 package main
 
 import (
+	"verif/internal/refesl"
 	mozpkcs7 "go.mozilla.org/pkcs7"
 	"bufio"
 	"bytes"
@@ -112,6 +113,17 @@ func c06Cases(seed int64, n int) []c06Case {
 	for k, nm := range []string{"pk", "Pk", "kek", "Kek", "KeK"} {
 		out = append(out, c06Case{Name: nm, GUIDBE: pkg, Attrs: 0x27, Payload: c12db(1, 50+k).Bytes(), PKind: "sha256-lists", Key: k % 4, Serial: int64(940 + k)})
 	}
+	// payloads handed over as decoded database objects (not bytes), incl. lists without entries
+	{
+		var o [16]byte
+		copy(o[:], fromLib(*efivar.PK.GUID).Wire())
+		hash := func(b byte) refesl.Entry { return refesl.Entry{Owner: o, Data: bytes.Repeat([]byte{b}, 32)} }
+		empty := refesl.List{Type: refesl.SHA256Type, SigSize: 48}
+		full := refesl.List{Type: refesl.SHA256Type, Entries: []refesl.Entry{hash(1), hash(2)}}
+		for k, lists := range [][]refesl.List{{full}, {empty}, {full, empty}, {empty, full}, {empty, empty, full, empty}} {
+			out = append(out, c06Case{Name: "dbx", GUIDBE: dbg, Attrs: 0x27, Payload: refesl.Encode(lists), PKind: "database-object", Key: k % 4, Serial: int64(980 + k)})
+		}
+	}
 	// several updates of one variable in quick succession through one store handle
 	for k := 0; k < 4; k++ {
 		out = append(out, c06Case{Name: "db", GUIDBE: dbg, Attrs: 0x27, Payload: c12db(1+k%2, 60+k).Bytes(), PKind: "sha256-lists", Key: 0, Serial: 960, Via: "WriteSignedUpdate"})
@@ -191,10 +203,18 @@ func c06ChildMain() {
 			results = append(results, res)
 			continue
 		}
+		var payload efivar.Marshallable = rawVal(c.Payload)
+		if c.PKind == "database-object" {
+			if db, derr := signature.ReadSignatureDatabase(bytes.NewReader(c.Payload)); derr == nil {
+				payload = &db
+			} else {
+				res.Err = "payload does not decode: " + derr.Error()
+			}
+		}
 		res.T0 = time.Now().Unix()
 		var mm efivar.Marshallable
 		p := tryP(func() {
-			av, m, err := signature.SignEFIVariable(v, rawVal(c.Payload), signer, cert)
+			av, m, err := signature.SignEFIVariable(v, payload, signer, cert)
 			mm = m
 			res.T1 = time.Now().Unix()
 			if err != nil {
